@@ -295,7 +295,7 @@ def main():
     ps = shape_and_bytes(rep, nmfu)
     # emitted C for the all-bytes programs: proved against the DFA (whose chains were just checked against the spelling)
     from . import _tvcommon as T
-    rep2, recs = T.run("C15", {"refine"}, "proof", "", optsets={"O1": ["-O1"], "O2-dyn": ["-O2", "-fallocate-str-space-dynamic", "-fstrings-as-u8"]}, programs=ps, extra=lambda p: [], fns=[])
+    rep2, recs = T.run("C15", {"refine", "consume"}, "proof", "", optsets={"O1": ["-O1"], "O2-dyn": ["-O2", "-fallocate-str-space-dynamic", "-fstrings-as-u8"]}, programs=ps, extra=lambda p: [], fns=[])
     rep.obligations += rep2.obligations
     rep.discharged += rep2.discharged
     for k, v in rep2.by_backend.items():
